@@ -170,7 +170,9 @@ Path = List[PathElement]
 
 SyncBBForwardMessage = message_type("forward", ["current_path", "ub"])
 SyncBBBackwardMessage = message_type("backward", ["current_path", "ub"])
-SyncBBTerminateMessage = message_type("terminate", ["current_path", "ub"])
+# A terminate message carries no content: it is always built without argument
+# (with declared but unset fields it could not be serialized).
+SyncBBTerminateMessage = message_type("terminate", [])
 
 
 class SyncBBComputation(VariableComputation):
